@@ -322,35 +322,66 @@ Proof. exact avail_order_observable. Qed.
 Print Assumptions C10_available_order_observable.
 
 (** ** What the model assumes about x/authz (Metadata/AuthzCount.v transcribes findAuthzGrantee
-    over a store that may hold count-limited authorizations).  If every stored authorization is
-    generic, then for whatever the per-message cache holds (as long as it is backed by the store)
-    the lookup returns exactly the model's [find_grantee] over the erased relation and the store is
+    over a store that may hold count-limited and expiring authorizations).  If every stored
+    authorization is generic, then at any block time and for whatever the per-message cache holds
+    (as long as it is backed by the store) the lookup never errors, returns exactly the model's
+    [find_grantee] over the relation of the grants live at that time, and leaves the store
     unchanged. *)
-Theorem C10_generic_grants_assumption : forall st c m wasm granter grantees,
-  all_generic st -> cache_ok st c ->
-  exists c', find_grantee_c st c granter grantees (authz_urls m) =
-             (find_grantee (mk_env m wasm (raw_of st)) granter grantees, st, c') /\
-             cache_ok st c'.
+Theorem C10_generic_grants_assumption : forall now st c m wasm granter grantees,
+  all_generic st -> cache_ok now st c ->
+  exists c',
+    (match find_grantee (mk_env m wasm (raw_of now st)) granter grantees with
+     | Some g => find_grantee_c now st c granter grantees (authz_urls m) = RFound g st c'
+     | None => find_grantee_c now st c granter grantees (authz_urls m) = RNone st c'
+     end) /\ cache_ok now st c'.
 Proof. exact generic_store_is_relation. Qed.
 Print Assumptions C10_generic_grants_assumption.
 
 (** The assumption is needed: with one count-limited authorization the lookup consumes it, and the
     same lookup by the next message finds nothing although the erased relation still grants. *)
 Theorem C10_count_limited_outside_model :
-  exists st granter grantees m,
-    let '(r1, st1, _) := find_grantee_c st [] granter grantees (authz_urls m) in
-    let '(r2, _, _) := find_grantee_c st1 [] granter grantees (authz_urls m) in
-    r1 = Some 2 /\ st1 <> st /\ r2 = None /\
-    find_grantee (mk_env m [] (raw_of st)) granter grantees = Some 2.
+  exists st granter grantees m now,
+    find_grantee_c now st [] granter grantees (authz_urls m) = RFound 2 [] [(2, 1, 1)] /\
+    find_grantee_c now [] [] granter grantees (authz_urls m) = RNone [] [] /\
+    find_grantee (mk_env m [] (raw_of now st)) granter grantees = Some 2.
 Proof. exact counted_store_is_not_a_relation. Qed.
 Print Assumptions C10_count_limited_outside_model.
 
-(** A CountAuthorization with n uses stands in for exactly the first n of k identical messages
-    (what the count-limited evidence cases of the run are compared with). *)
-Theorem C10_count_n_messages : forall n k a b m, a <> b ->
-  messages k (st_n a b m n) a [b] m = repeat true (Nat.min k n) ++ repeat false (k - n).
+(** A signer standing in through a grant needs a grant that is LIVE at that block time: a message
+    whose only requirement is [granter]'s signature is accepted only if [granter] signs or some
+    stored authorization from [granter] to a signer, under a message type that counts, has no
+    expiration or one that is not before the block time. *)
+Theorem C10_grant_must_be_live : forall now st granter signers m,
+  fst (one_message now st granter signers m) = true ->
+  In granter signers \/
+  exists g s, In g st /\ In s signers /\ In (cg_kind g) (authz_urls m) /\
+              cg_granter g = granter /\ cg_grantee g = s /\ live now g = true.
+Proof. exact accepted_message_had_live_grant. Qed.
+Print Assumptions C10_grant_must_be_live.
+
+(** A CountAuthorization with n uses and no expiration stands in for exactly the first n of the
+    identical messages, whatever their block times. *)
+Theorem C10_count_n_messages : forall n times a b m, a <> b ->
+  messages times (st_n a b m n) a [b] m =
+  repeat true (Nat.min (length times) n) ++ repeat false (length times - n).
 Proof. exact count_n_stands_for_n_messages. Qed.
 Print Assumptions C10_count_n_messages.
+
+(** Expirations (granter 1, grantee 2, expiring at second 10; messages at the listed seconds;
+    second component: the expiration stored for the key afterwards, -1 = nothing stored): uses
+    never change the expiration; a grant is still live AT its expiration second, where a
+    CountAuthorization with two or more uses left makes the message fail (the decremented grant
+    cannot be re-saved), one with a single use or a generic one still works; afterwards nothing. *)
+Theorem C10_expiration_behaviour :
+  let g uses := {| cg_granter := 1; cg_grantee := 2; cg_kind := 1; cg_left := uses; cg_exp := Some 10 |} in
+  messages_obs [g (Some 3)] [5; 10; 10; 11] [g (Some 3)] 1 [2] 1 =
+    [(true, [10]); (false, [10]); (false, [10]); (false, [10])] /\
+  messages_obs [g (Some 2)] [5; 10; 11] [g (Some 2)] 1 [2] 1 =
+    [(true, [10]); (true, [-1]); (false, [-1])] /\
+  messages_obs [g None] [5; 10; 11] [g None] 1 [2] 1 =
+    [(true, [10]); (true, [10]); (false, [10])].
+Proof. exact expiration_behaviour. Qed.
+Print Assumptions C10_expiration_behaviour.
 
 (** Non-vacuity: scope owners 1 (CONTROLLER, required), 2 and 3 (SERVICER, optional), 4 (SERVICER,
     optional); two SERVICER signatures required; 1 and 2 sign, 3 has granted to 2's co-signer 7.
